@@ -54,6 +54,8 @@ def run(ctx, rep):
                    "whatever diagnostics the actions pushed), and validate passes every stored result through validation::validate")
     _c12.add_content_rule(ctx, rep, "C02", "H3")
     _c12.inherit_h7(ctx, rep, "C02")
+    import c14 as _c14
+    _c14.tree_kept_rule(ctx, rep, "C02", "R8")   # "every member in source order" also after validation: the tree is returned with the nodes the actions built
     rep.assumptions += ["TB-2 the generated parser calls the actions as the grammar says and the runtime lexer is longest-match with the match-block priority", "TB-1 rustc MIR", "TB-4 tabulator",
                         "lalrpop's canned actions for `*`, `+`, `?`, `( )` keep order (TB-2)"]
     rep.not_decided.append("that the generated LR tables implement the grammar (TB-2; gramfacts cross-checks tables against the front-end, outside the registered checks)")
